@@ -333,6 +333,10 @@ def insertAssert (x : String × Nat) : List (String × Nat) → List (String × 
 def sizeAssertions (ss : List Spec) : List (String × Nat) :=
   (ss.map (fun s => s.plus.map (fun d => (d.ty, d.size)))).flatten.foldl (fun acc x => insertAssert x acc) []
 
+/-- the alignment assertions: every `(type, alignment)` of every datum of every variant -/
+def alignAssertions (ss : List Spec) : List (String × Nat) :=
+  (ss.map (fun s => s.data.map (fun d => (d.ty, d.align)))).flatten.foldl (fun acc x => insertAssert x acc) []
+
 /-- `generate()`; `none` = `max_size()` panics -/
 def module (d : Definition) (cfg : Cfg) : Option (List Item) :=
   match d.maxSize with
@@ -345,7 +349,8 @@ def module (d : Definition) (cfg : Cfg) : Option (List Item) :=
       [.raw s!"pub const MAX_SIZE:usize={ms};",
        .raw (s!"#[repr(align({d.maxTypeAlign}))]pub struct RecordUninitialized<{CAPG}>" ++ "{_data:RecordMaybeUninit<CAP>,}")] ++
       (ss.map (variantItems cfg)).flatten ++
-      (sizeAssertions ss).map (fun (t, n) => .raw s!"const_assert_eq!(std::mem::size_of::<{t}>(),{n});"))
+      (sizeAssertions ss).map (fun (t, n) => .raw s!"const_assert_eq!(std::mem::size_of::<{t}>(),{n});") ++
+      (alignAssertions ss).map (fun (t, n) => .raw s!"const_assert_eq!(std::mem::align_of::<{t}>(),{n});"))
 
 def render (items : List Item) : List String := (items.map Item.render).flatten
 
